@@ -168,6 +168,18 @@ func (f *FS) Disarm() {
 	f.mu.Unlock()
 }
 
+// Mark adds a marker to the step log (not a crash point, not counted).
+func (f *FS) Mark(kind, p string) {
+	f.mu.Lock()
+	if f.Record && !f.dead {
+		f.Log = append(f.Log, StepInfo{Kind: kind, Path: p, Len: f.steps})
+	}
+	f.mu.Unlock()
+}
+
+// Dead reports whether the owning process has crashed.
+func (f *FS) Dead() bool { return f.dead }
+
 // ResetLog restarts micro-step counting.
 func (f *FS) ResetLog() {
 	f.mu.Lock()
